@@ -143,6 +143,15 @@ SELFTESTS = [
         {"op": "unblock", "n": 1}, {"op": "finish", "n": 1},
         {"op": "append", "n": 1, "first": 8, "term": 1, "kinds": ["a", "cp"]}, {"op": "finish", "n": 1}],
      "expect": ("skipped", 1, [4, 7])},
+    # blocked ReportFn, one report delivered, one queued, then ONE batch holding two checkpoints: both dropped and counted
+    {"id": "st-drop-batch", "steps": [
+        {"op": "block", "n": 1},
+        {"op": "append", "n": 1, "first": 1, "term": 1, "kinds": ["a", "cp"]}, {"op": "finish", "n": 1},
+        {"op": "append", "n": 1, "first": 3, "term": 1, "kinds": ["a", "cp"]},
+        {"op": "append", "n": 1, "first": 5, "term": 1, "kinds": ["cp", "a", "cp"]},
+        {"op": "unblock", "n": 1}, {"op": "finish", "n": 1},
+        {"op": "append", "n": 1, "first": 8, "term": 1, "kinds": ["a", "cp"]}, {"op": "finish", "n": 1}],
+     "expect": ("skipped", 1, [4, 7])},
     # a checkpoint whose Extensions hold foreign data is refused
     {"id": "st-foreign", "steps": [
         {"op": "append", "n": 1, "first": 1, "term": 1, "kinds": ["a"]},
